@@ -129,7 +129,7 @@ def val_json(v):
 
 def ops_json(ops):
     out = []
-    for o in ops:
+    for o in I.flat_ops(ops):
         k = o["op"]
         if k == "create_table":
             out.append({"op": k, "name": cps(o["name"]), "cols": [col_json(c) for c in o["cols"]]})
@@ -194,32 +194,34 @@ def linear_query(case, res):
     return op, [{"log": st["log"], "ver": [list(v) for v in st["ver"]]} for st in steps]
 
 
-def hetero_ops(case):
-    out = []
-    for rid, b in case["bodies"].items():
+def all_ops(case):
+    """every leaf op of every body (the dicts themselves: callers may modify them in place)"""
+    for b in case["bodies"].values():
         for side in ("up", "down"):
-            for k, o in enumerate(b[side]):
-                if o["op"] == "bulk_insert" and o.get("multiinsert", True) and len({tuple(sorted(r)) for r in o["rows"]}) > 1:
-                    out.append((rid, side, k))
-    return out
+            yield from I.flat_ops(b[side])
+
+
+def is_hetero(o):
+    return o["op"] == "bulk_insert" and o.get("multiinsert", True) and len({tuple(sorted(r)) for r in o["rows"]}) > 1
+
+
+def hetero_ops(case):
+    return [o for o in all_ops(case) if is_hetero(o)]
 
 
 BIND_RE = re.compile(r"(?<![:\w\\]):(\w+)(?!:)")  # sqlalchemy.text()'s bind-parameter pattern
 
 
 def has_bindtoken(case):
-    return any(o["op"] == "execute" and (BIND_RE.search(o["text"]) or "%(" in o["text"])
-               for b in case["bodies"].values() for side in ("up", "down") for o in b[side])
+    return any(o["op"] == "execute" and (BIND_RE.search(o["text"]) or "%(" in o["text"]) for o in all_ops(case))
 
 
 def neutralise_bindtokens(case):
     """the same case with every unescaped bind-looking token of its execute texts escaped the documented way"""
     c2 = copy.deepcopy(case)
-    for b in c2["bodies"].values():
-        for side in ("up", "down"):
-            for o in b[side]:
-                if o["op"] == "execute":
-                    o["text"] = BIND_RE.sub(lambda m: "\\:" + m.group(1), o["text"]).replace("%(", "%_(")
+    for o in all_ops(c2):
+        if o["op"] == "execute":
+            o["text"] = BIND_RE.sub(lambda m: "\\:" + m.group(1), o["text"]).replace("%(", "%_(")
     return c2
 
 
@@ -298,8 +300,9 @@ def one_case(ctx, case, mode, pending):
         if het:
             # narrow test for C12-HETERO: the same case with those bulk_inserts executed row by row
             c2 = copy.deepcopy(case)
-            for rid, side, k in het:
-                c2["bodies"][rid][side][k]["multiinsert"] = False
+            for o in all_ops(c2):
+                if is_hetero(o):
+                    o["multiinsert"] = False
             if judge(execute_case(c2, mode))[0] == "ok":
                 tags = tags + ["hetero-multiinsert-only"]
         ctx.fail(inp, what, impl={k: res.get(k) for k in ("script", "online_error", "offline_error", "exec_error")}, tags=tags)
@@ -312,11 +315,14 @@ def one_case(ctx, case, mode, pending):
     ctx.hist("statements", min(res["n_statements"], 40) // 5 * 5)
     for b in case["bodies"].values():
         for o in b["up"] + b["down"]:
-            ctx.hist("ops", o["op"])
-            if o["op"] == "bulk_insert":
-                for r in o["rows"]:
-                    for v in r.values():
-                        ctx.hist("value_kinds", v["k"])
+            if o["op"] == "autocommit":
+                ctx.hist("ops", "autocommit_block")
+    for o in all_ops(case):
+        ctx.hist("ops", o["op"])
+        if o["op"] == "bulk_insert":
+            for r in o["rows"]:
+                for v in r.values():
+                    ctx.hist("value_kinds", v["k"])
     if res["n_statements"] > len(res["ver_offline"]) + 1:
         ctx.nontrivial(script)
     pending.append((inp, res))
